@@ -90,6 +90,13 @@ func StopLog() []LogEntry {
 	return l
 }
 
+// LogSnapshot returns a copy of the log recorded so far (recording continues).
+func LogSnapshot() []LogEntry {
+	w.mu.Lock()
+	defer w.mu.Unlock()
+	return append([]LogEntry{}, w.log...)
+}
+
 // LogLen is the number of atomic writes recorded so far.
 func LogLen() int {
 	w.mu.Lock()
